@@ -1021,6 +1021,13 @@ class Executor:
                 return Fork([(is_some, lambda ex, st_, tr: ex.apply(tr(argvals[1]), [pay(ex, tr(x))], callee)), (is_none, lambda ex, st_, tr: none(ex))])
             if meth == "map_or":
                 return Fork([(is_some, lambda ex, st_, tr: ex.apply(tr(argvals[2]), [pay(ex, tr(x))], callee)), (is_none, lambda ex, st_, tr: tr(argvals[1]))])
+            if meth == "ok_or_else":
+                def ooe(ex, st_, tr):
+                    r = ex.apply(tr(argvals[1]), [], callee)
+                    return Wrap(r, lambda ex2, v: ex2.mk_variant("Result", 1, "Err", v)) if isinstance(r, Inline) else ex.mk_variant("Result", 1, "Err", r)
+                return Fork([(is_some, lambda ex, st_, tr: ex.mk_variant("Result", 0, "Ok", pay(ex, tr(x)))), (is_none, ooe)])
+            if meth == "unwrap_or_else":
+                return Fork([(is_some, lambda ex, st_, tr: pay(ex, tr(x))), (is_none, lambda ex, st_, tr: ex.apply(tr(argvals[1]), [], callee))])
             if meth == "ok_or":
                 return Fork([(is_some, lambda ex, st_, tr: ex.mk_variant("Result", 0, "Ok", pay(ex, tr(x)))),
                              (is_none, lambda ex, st_, tr: ex.mk_variant("Result", 1, "Err", tr(argvals[1])))])
